@@ -46,6 +46,10 @@ func (e *Env) pkg() *types.Package {
 		if p := e.c.g.typesPkg(e.calleePkg); p != nil {
 			return p
 		}
+		// the declaring package of a shared extern contract is not loaded: resolve in the caller's scope
+		if e.c.fn != nil {
+			return e.c.fn.Pkg.Pkg
+		}
 	}
 	if e.c.fn == nil {
 		return e.c.g.typesPkg(e.c.spec.Pkg)
@@ -129,6 +133,15 @@ func (g *Gen) lookupImport(pkg *types.Package, name string) *types.Package {
 			if imp.Path() == path {
 				return imp
 			}
+		}
+	}
+	aliased := map[string]bool{}
+	for _, path := range g.aliases[pkg.Path()] {
+		aliased[path] = true
+	}
+	for _, imp := range pkg.Imports() {
+		if imp.Name() == name && !aliased[imp.Path()] {
+			return imp
 		}
 	}
 	for _, imp := range pkg.Imports() {
@@ -246,7 +259,7 @@ func (c *FnCtx) evalSpec(e Expr, env *Env) (TV, error) {
 		case *types.Slice:
 			key, hs := c.g.elemHeapKey(bt.Elem())
 			h := c.heap(env.st, key, hs)
-			v := sel(sel(h, sBase(base.t)), add(sOff(base.t), idx.t))
+			v := sel(sel(h, sBase(base.t)), eidx(sOff(base.t), idx.t))
 			return TV{v, bt.Elem()}, nil
 		case *types.Array:
 			return TV{sel(base.t, idx.t), bt.Elem()}, nil
